@@ -126,7 +126,7 @@ def classify_point(x, consts, dtype):
     return "generic"
 
 
-def judge_roundtrip(b, ii, X, c, direction, dtype, consts):
+def judge_roundtrip(b, ii, X, c, direction, dtype, consts, has_conditioner=False):
     """direction 'fwd': x -> transform -> inverse; 'inv': y -> inverse -> transform. Returns dict."""
     from mc import battery as bt
 
@@ -164,6 +164,11 @@ def judge_roundtrip(b, ii, X, c, direction, dtype, consts):
     # a point whose admissible error exceeds 1% of the data scale is ill-conditioned in this dtype
     # (e.g. images that underflow): it is skipped and counted, never judged
     judged = fin & ok & (K * eps * nJinv <= 1e-2)
+    if has_conditioner:
+        # the transformer parameters of coupling / autoregressive layers are network outputs that grow with the input:
+        # |x| >= 1e3 drives them far outside the property's box of bounded raw parameters (a float32 spline with raw
+        # parameters ~1e4 has bins of zero width), so those rows are skipped and counted, not judged
+        judged &= (np.maximum(nx, ny) < 1e3)
     bad = judged & ~(err <= bound)
     # plain vs and-log-det variants (same computation)
     veq1 = bt.vec_inf(np.nan_to_num(y - y2, nan=0.0, posinf=0.0, neginf=0.0))
@@ -209,6 +214,7 @@ def run_case(case):
     digest = hashlib.sha1()
     sample = None
     dt = "f64" if dtype == np.float64 else "f32"
+    has_cond_net = "factory" in case or any(k in case["id"] for k in ('"k":"MAF"', '"k":"Coupling"', '"k":"Planar"', '"k":"BNAF"'))
 
     def add(sig_tail, msg, detail):
         viols.append({"sig": f"C01|{cls}|{dt}|{sig_tail}", "msg": msg, "detail": detail})
@@ -232,7 +238,7 @@ def run_case(case):
                 if ii.fwd and ii.inv:
                     if dom_known:
                         X = bt.input_batch(ii.dom, consts, dtype)
-                        r = judge_roundtrip(b, ii, X, c, "fwd", dtype, consts)
+                        r = judge_roundtrip(b, ii, X, c, "fwd", dtype, consts, has_cond_net)
                         if r is not None:
                             runs.append(("dom->cod->dom", X, r))
                             # image points: y = f(x), transform(inverse(y)) == y
@@ -240,12 +246,12 @@ def run_case(case):
                             if fin.any():
                                 # same batch size as X (no recompilation); rows without a finite image are masked
                                 Yimg = np.where(fin.reshape((-1,) + (1,) * (X.ndim - 1)), r["y"], r["y"][np.argmax(fin)])
-                                r2 = judge_roundtrip(b, ii, Yimg, c, "inv", dtype, consts)
+                                r2 = judge_roundtrip(b, ii, Yimg, c, "inv", dtype, consts, has_cond_net)
                                 if r2 is not None:
                                     runs.append(("image->dom->image", Yimg, r2))
                     if cod_known:
                         Y = bt.input_batch(ii.cod, consts, dtype)
-                        r = judge_roundtrip(b, ii, Y, c, "inv", dtype, consts)
+                        r = judge_roundtrip(b, ii, Y, c, "inv", dtype, consts, has_cond_net)
                         if r is not None:
                             runs.append(("cod->dom->cod", Y, r))
                     if not dom_known and not cod_known:
